@@ -604,6 +604,52 @@ def rule_R10(ck):
                      construct="emit_files per-output content", expected=repr(want[diff]), found=repr(got[diff] if diff < len(got) else None))
 
 
+def rule_device_paths(ck):
+    """'directive paths relative to the source file': a path is taken as it stands only when it is absolute or names a
+    REGISTERED device ('~speaker'). The path functions of devices.py are executed abstractly on concrete names with a
+    registry holding exactly one device."""
+    import os
+    repo = ck.repo
+    I = eager_interp(repo)
+    where = "devices::resolve_relative_path"
+    base = "dir/src.mac"
+    # the device names the package registers (decorators of devices.py), read from the syntax tree
+    registered = sorted({d.args[0].value[1:] for f_, d in repo.decorated("devices", "register_device") if isinstance(d, ast.Call) and d.args and isinstance(d.args[0], ast.Constant) and isinstance(d.args[0].value, str)})
+    ck.instance("registered-devices", {"devices": registered}, fn="devices::register_device")
+    if not registered:
+        raise Unknown("no @register_device('~name', ...) decorator found in devices.py")
+    dev = registered[0]
+    cases = [("~backup", False), ("~old image.bin", False), ("~x", False), ("~" + dev + "s", False), ("~" + dev, True), ("~" + dev.upper(), True), ("~" + dev + " 1", True),
+             ("sub/x.bin", False), ("~", False), ("~" + dev + "3", False)]
+    for path, is_dev in cases:
+        def thunk(path=path):
+            dd = I.module_get("devices", "DEVICES")
+            had = dict(dd)
+            dd.clear()
+            dd[dev] = {"wb": (None, None)}
+            try:
+                return (I.call(I.module_get("devices", "is_device_path"), [path], {}), I.call(I.module_get("devices", "is_absolute_path"), [path], {}),
+                        I.call(I.module_get("devices", "resolve_relative_path"), [path, base], {}), sorted(dd))
+            finally:
+                dd.clear()
+                dd.update(had)
+        ps = I.explore(thunk)
+        if len(ps) != 1 or ps[0].kind != "return":
+            raise Unknown(f"path functions on {path!r}: {ps}")
+        isdev, isabs, resolved, keys = ps[0].value
+        want = path if is_dev else os.path.normpath(os.path.join(os.path.dirname(base), path))
+        ck.instance(("device-path", path), {"path": path, "is_device_path": isdev, "resolved against dir/src.mac": resolved}, fn=where)
+        if bool(isdev) != is_dev or bool(isabs) != is_dev:
+            ck.violation("devices::is_device_path", f"with the devices {[dev]} registered, is_device_path({path!r}) is {isdev!r} and is_absolute_path is {isabs!r}; expected {is_dev}: "
+                                                    "only '~' + a registered device name (any case, optionally followed by a space and arguments) is a device, every other '~name' is an ordinary file",
+                         construct="device path recognition")
+        if resolved != want:
+            ck.violation(where, f"the directive path {path!r} in dir/src.mac resolves to {resolved!r}, expected {want!r} (relative to the source file unless it is absolute or a registered device)",
+                         construct="directive path resolution", expected=want, found=repr(resolved))
+        if keys != [dev]:
+            ck.violation("devices::is_device_path", f"looking at the path {path!r} changes the device registry to {keys}", construct="device registry changed by lookup")
+
+
 def run(ck):
     ck.run_rule("C13.R10", "emit_files writes each output with its own format, arguments and path", 5, rule_R10)
     ck.run_rule("C13.R1", "bin/raw layouts; format registry and its users", 8, rule_R1)
@@ -614,5 +660,6 @@ def run(ck):
     ck.run_rule("C13.R6", "checksum is an end-around-carry sum", 1, rule_R6)
     ck.run_rule("C13.R7", "output path derivation and suffix-strip agreement", 8, rule_R7)
     ck.run_rule("C13.R8", "tape name: encode, 16-byte bound, padding", 2, rule_R8)
+    ck.run_rule("C13.R7d", "'~name' is a device only when registered; every other directive path is relative to the source file", 10, rule_device_paths)
     from ..rules import climodel
     ck.run_rule("CLI", "main_cli over all output configurations: every requested output at its path with exactly the image", 500, climodel.rule_cli, ("writes",))
